@@ -95,6 +95,26 @@ def run(ctx):
         tag = ri.local_name(slot[1][1]) if slot else str(bb)
         ctx.ob("R03.2", "total_read=len(out)+len(err)@%s" % tag, E.len_sum(M.noref(a[ti])), ri.loc(bb), "total_read argument = %s (must be outvec.len() + errvec.len())" % M.term_str(a[ti])[:100])
         ctx.ob("R03.2", "size_limit-passed@%s" % tag, a[li] == ("param", E.params["size_limit"], "size_limit"), ri.loc(bb), "size_limit argument = %s" % M.term_str(a[li]))
+    # freshness: the lengths feeding total_read must be read after every append of the same iteration
+    head = min(E.loop) if E.loop else 0
+    mutators = [bb for bb, t in E.do_reads] + [bb for bb, t in ri.calls(E.loop) if M.callee_str(t["f"]).split("::")[-1] in ("extend_from_slice", "push", "append", "extend", "truncate", "clear")
+                                                and M.noref(T.operand(t["args"][0])) in (("param", E.params.get("outvec"), "outvec"), ("param", E.params.get("errvec"), "errvec"))]
+    for bb, t in E.do_reads:
+        tot_t = T.operand(t["args"][P["total_read"] - 1])
+        lens = []
+        M.contains(tot_t, lambda u: (u[0] == "call" and u[1] == "std::vec::Vec::<T, A>::len" and lens.append(u[3])) or False)
+        stale = []
+        for L in lens:
+            for O in mutators:
+                if O == bb:
+                    continue
+                if O in ri.reachable(L, stop_blocks=[bb, head]) - {L} and bb in ri.reachable(O, stop_blocks=[head]):
+                    stale.append((L, O))
+        slot = T.addr(t["args"][0])
+        tag = ri.local_name(slot[1][1]) if slot else str(bb)
+        ctx.ob("R03.2", "total_read-is-fresh@%s" % tag, bool(lens) and not stale, ri.loc(bb),
+               "the byte count handed to do_read must be taken after every append of the same iteration; here the lengths are read at bb%s but another read "
+               "(bb%s) appends in between, so this read is clipped against a stale count and one call can return up to twice the limit" % (lens, [o for _, o in stale]))
     top = bool_edges(ri, T, lambda c: c[0] == "bin" and c[1] == "Ge" and E.len_sum(M.noref(c[2])) and M.noref(c[3]) == ("field", ("downcast", ("param", E.params["size_limit"], "size_limit"), "Some"), "0"), True)
     ok = len(top) == 1 and top[0][0] in E.loop and top[0][1] not in E.loop
     ctx.ob("R03.2", "loop-top-test", ok, ri.loc(top[0][0] if top else 0), "the loop is left when outvec.len() + errvec.len() >= limit (both vectors, >=)")
